@@ -413,3 +413,82 @@ Definition mia_rl_expected (c : mia_rl_case) : list (nat * nat * option st * opt
                   end)) (seq 0 (rc_nw c))) (seq 0 (rc_ns c))
   | _, _ => []
   end.
+
+(* ------------------------------------------------------------------------------------------ configuration histories *)
+(* The configuration of a distinguisher: the accepted edges (None: not configured yet, the first update builds
+   bins_number + 1 equally spaced edges over the window of its batch) and bins_number.  Assigning an edge list that the
+   setter refuses raises and must leave the object as it was: it is a no-op of the model. *)
+Record mia_cfg := { cfg_edges : option (list Qc); cfg_bins : nat }.
+Definition assign_edges (tol : Qc) (cfg : mia_cfg) (l : list Qc) : mia_cfg :=
+  if edges_ok tol l then {| cfg_edges := Some l; cfg_bins := nbins l |} else cfg.
+Definition cfg_consistent (cfg : mia_cfg) : Prop :=
+  match cfg_edges cfg with Some e => cfg_bins cfg = nbins e | None => True end.
+
+Inductive hop :=
+| HSet (l : list fval)                                  (* obj.bin_edges = l, a list / ndarray of floats *)
+| HSetBadType                                           (* obj.bin_edges = something that is not a list / ndarray / range *)
+| HUpdate (rows : list (list fval * list Z)).           (* obj.update(traces, data) *)
+
+Record mia_history_case := {
+  hc_init : list fval;                                  (* edges given to the constructor; [] = none (bins_number only) *)
+  hc_bins : nat;                                        (* bins_number given to the constructor *)
+  hc_parts : list Z;
+  hc_ops : list hop;
+  hc_ns : nat; hc_nw : nat; hc_ln : list fval; hc_f32 : bool;
+  hc_obs_refused : list bool;                           (* one per HSet / HSetBadType: the assignment raised *)
+  hc_obs_edges : list fval;                             (* bin_edges read back at the end *)
+  hc_obs_bins : nat;                                    (* bins_number read back at the end *)
+  hc_obs_acc : list (list (list (list Z)));
+  hc_obs_res : list (list fval)
+}.
+
+Definition fvals_qc (l : list fval) : option (list Qc) := all_some (map fval_qc l).
+Definition fvals_eqb (a b : list fval) : bool :=
+  match fvals_qc a, fvals_qc b with Some x, Some y => list_eqb Qceqb x y | _, _ => false end.
+
+(* state of the fold: configured edges (as exported), bins_number, started?, expected refusals (reversed), updates (reversed), valid? *)
+Definition hstate := (option (list fval) * nat * bool * list bool * list (list (list fval * list Z)) * bool)%type.
+
+Definition hstep (readback : list fval) (st : hstate) (o : hop) : hstate :=
+  let '(e, k, started, fl, ups, ok) := st in
+  match o with
+  | HSetBadType => (e, k, started, true :: fl, ups, ok)
+  | HSet l =>
+      let acc := match fvals_qc l with Some q => edges_ok mia_tol q | None => false end in
+      if acc then
+        (* an accepted assignment after accumulation has started is outside the model (the generator never does it) *)
+        (Some l, (length l - 1)%nat, started, false :: fl, ups, ok && negb started)
+      else (e, k, started, true :: fl, ups, ok)
+  | HUpdate rows =>
+      match e with
+      | Some _ => (e, k, true, fl, rows :: ups, ok)
+      | None => (* automatic edges: the object must report bins_number + 1 of them *)
+          (Some readback, k, true, fl, rows :: ups, ok && Nat.eqb (length readback) (S k))
+      end
+  end.
+
+Definition hrun (c : mia_history_case) : hstate :=
+  fold_left (hstep (hc_obs_edges c))
+            (hc_ops c)
+            (match hc_init c with [] => None | l => Some l end,
+             match hc_init c with [] => hc_bins c | l => (length l - 1)%nat end, false, [], [], true).
+
+Definition history_as_case (c : mia_history_case) (edges : list fval) (ups : list (list (list fval * list Z))) : mia_case :=
+  {| mc_edges := edges; mc_parts := hc_parts c; mc_batches := rev ups; mc_ns := hc_ns c; mc_nw := hc_nw c; mc_ln := hc_ln c;
+     mc_f32 := hc_f32 c; mc_obs_acc := hc_obs_acc c; mc_obs_res := hc_obs_res c |}.
+
+Definition mia_history_check (c : mia_history_case) : bool :=
+  let '(e, k, started, fl, ups, ok) := hrun c in
+  match e with
+  | None => false
+  | Some edges =>
+      ok && started
+      && list_eqb Bool.eqb (rev fl) (hc_obs_refused c)
+      && fvals_eqb edges (hc_obs_edges c)
+      && Nat.eqb (hc_obs_bins c) k && Nat.eqb k (length edges - 1)
+      && mia_check (history_as_case c edges ups)
+  end.
+
+Definition mia_history_expected (c : mia_history_case) :=
+  let '(e, k, started, fl, ups, ok) := hrun c in
+  (rev fl, k, match e with Some edges => mia_expected (history_as_case c edges ups) | None => [] end).
